@@ -3,6 +3,9 @@ package rules
 import (
 	"fmt"
 	"sort"
+	"strings"
+
+	"golang.org/x/tools/go/ssa"
 
 	"verif/internal/an"
 )
@@ -17,5 +20,21 @@ func DumpOps(p *an.Prog) {
 	sort.Strings(lines)
 	for _, l := range lines {
 		fmt.Println(l)
+	}
+}
+
+// DumpIndexSites prints IndexAddr sites on MsgTx.TxIn / TxOut slices (debug aid).
+func DumpIndexSites(p *an.Prog) {
+	for _, f := range p.ModFuncs {
+		an.Instrs(f, func(in ssa.Instruction) {
+			ia, ok := in.(*ssa.IndexAddr)
+			if !ok {
+				return
+			}
+			d := p.Desc(ia.X)
+			if strings.HasSuffix(d, "MsgTx.TxIn") || strings.HasSuffix(d, "MsgTx.TxOut") {
+				fmt.Printf("%-70s %-40s [%s]  %s\n", sk(f), d, p.Desc(ia.Index), p.InstrPos(in))
+			}
+		})
 	}
 }
